@@ -158,8 +158,10 @@ pub fn ts_parse_oracle(s: &str) -> Option<Value> {
 
 /// oracle tables for every string that statically occurs in the case
 pub fn oracles_sexp(strings: &BTreeSet<String>, patterns: &BTreeSet<String>) -> String {
+    let ship = crate::util::ship_facts(crate::util::SITE_EVAL);
     let mut s = String::from("(oracles (fparse");
     for x in strings {
+        if !ship { break; }
         match x.parse::<f64>() {
             Ok(f) => s.push_str(&format!(" ({} {})", hexs(x), f.to_bits())),
             Err(_) => s.push_str(&format!(" ({} none)", hexs(x))),
@@ -167,6 +169,7 @@ pub fn oracles_sexp(strings: &BTreeSet<String>, patterns: &BTreeSet<String>) -> 
     }
     s.push_str(") (tsparse");
     for x in strings {
+        if !ship { break; }
         match ts_parse_oracle(x) {
             Some(v) => {
                 let vs = value_sexp(&v); // (ts d s f)
